@@ -74,7 +74,10 @@ KINDS = [
 LAYOUT = [(['ha'], False), (['hb'], False), (['sub', 'hc'], False), (['sub', 'deep', 'hd'], False),
           (['sub', 'hw'], True), (['lay', 'hk'], False), (['hv'], True),
           # private-looking names (two leading underscores) are names like any other
-          (['__hp'], False), (['sub', '__hq'], False)]
+          (['__hp'], False), (['sub', '__hq'], False),
+          # a handle of the layered map that lives in the LOWER layer only (everything registered before the layer was
+          # pushed does)
+          (['lay', 'hl'], False)]
 ACCESS = ['call', 'root_item', 'chained', 'enclosing', 'get_call', 'snap_attr', 'snap_item', 'snap_get', 'world_file', 'second_place']
 
 
@@ -105,7 +108,7 @@ def decode_op(t):
     kind = ('access', 'access', 'access', 'access', 'access', 'access', 'clear', 'clear', 'snapshot', 'switch',
             'replace', 'orphan', 'failnext', 'bulk', 'cycle', 'cycle')[sel % 16]
     if kind == 'cycle':
-        return ['cycle', p % 9, p // 9 % 10, p // 90 % 10]
+        return ['cycle', p % 10, p // 10 % 10, p // 100 % 10]
     if kind == 'bulk':
         return ['bulk', p % 4]
     if kind == 'failnext':
@@ -124,7 +127,7 @@ def decode_op(t):
 
 
 def strategy():
-    op = st.tuples(st.integers(0, 15), worldops.packed(12 * 10 * 4 * 2)).map(decode_op)
+    op = st.tuples(st.integers(0, 15), worldops.packed(12 * 10 * 4 * 3)).map(decode_op)
     return st.fixed_dictionaries({
         'kinds': st.lists(st.integers(0, len(KINDS) - 1), min_size=5, max_size=5),
         'ops': worldops.chunked(op, 40),
